@@ -116,22 +116,11 @@ theorem liftOps_ok {α : Type} {x : Except InlineOps.Panic α} {a : α} :
     liftOps x = .ok a ↔ x = .ok a := by
   cases x <;> simp [liftOps]
 
-theorem liftOps_error {α : Type} {x : Except InlineOps.Panic α} {e : Panic} (h : liftOps x = .error e) :
-    ∃ e', x = .error e' ∧ e = Panic.ofOps e' := by
-  cases x with
-  | ok a => simp [liftOps] at h
-  | error e' => simp [liftOps] at h; exact ⟨e', rfl, h.symm⟩
+theorem liftR_ok {α : Type} {x : Except RPanic α} {a : α} : liftR x = .ok a ↔ x = .ok a := by
+  cases x <;> simp [liftR]
 
-theorem ofOps_ne_fuel (e : InlineOps.Panic) : Panic.ofOps e ≠ .fuel := by cases e <;> simp [Panic.ofOps]
-
-theorem ofCode_ne_fuel (e : CodePair.Panic) : Panic.ofCode e ≠ .fuel := by cases e <;> simp [Panic.ofCode]
-
-theorem ofLink_ne_fuel (e : Link.Panic) : Panic.ofLink e ≠ .fuel := by cases e; simp [Panic.ofLink]
-
-theorem liftOps_ne_fuel {α : Type} (x : Except InlineOps.Panic α) : liftOps x ≠ .error .fuel := by
-  cases x with
-  | ok a => simp [liftOps]
-  | error e => simp only [liftOps, ne_eq, Except.error.injEq]; exact ofOps_ne_fuel e
+theorem liftR_ne_fuel {α : Type} (x : Except RPanic α) : liftR x ≠ .error .fuel := by
+  cases x <;> simp [liftR]
 
 theorem window_ok {st : IState} (hi : InlineInv st) :
     ∃ pre w post, st.src = pre ++ w ++ post ∧ byteLen pre = st.pos ∧
@@ -144,10 +133,6 @@ theorem window_ok {st : IState} (hi : InlineInv st) :
 theorem window_eq {st : IState} {w : List Char} (h : st.window = .ok w) :
     slice st.src st.pos st.posMax = .ok w := by
   unfold IState.window at h; exact liftOps_ok.mp h
-
-theorem window_ne_fuel (st : IState) : st.window ≠ .error .fuel := liftOps_ne_fuel _
-
-theorem getMap_ne_fuel (st : IState) (a b : Nat) : st.getMap a b ≠ .error .fuel := liftOps_ne_fuel _
 
 /-- `get_map` cannot fail on a well-formed table when `a ≤ b` -/
 theorem getMap_ok {st : IState} (hw : WFMap st.srcmap) {a b : Nat} (hab : a ≤ b) :
